@@ -98,6 +98,7 @@ type Observed struct {
 	Err     string
 	Em      *obs.Emitted
 	GoBytes []byte
+	JSON    []byte // exported operations, when requested
 }
 
 func opNames(defs []*gen.Def) map[string]bool {
@@ -130,6 +131,9 @@ func Observe(dir string, c *Case) *Observed {
 	default:
 		o.Class = "ok"
 		for name, data := range oc.Files {
+			if strings.HasSuffix(name, ".json") {
+				o.JSON = data
+			}
 			if strings.HasSuffix(name, ".go") {
 				o.GoBytes = data
 				em, err := obs.ReadEmitted(data, opNames(c.Defs))
